@@ -99,7 +99,7 @@ DoA(c) ==
 Obs(c) ==
     LET lst == IF c.op = "iterate" /\ taint # {}
                THEN SelectSeq(c.rl, LAMBDA e : e.i \notin taint) ELSE c.rl
-    IN [t |-> c.r.t, v |-> IF c.r.t = "list" THEN Len(lst) ELSE c.r.v, l |-> lst]
+    IN [t |-> c.r.t, v |-> IF c.r.t = "#list" THEN Len(lst) ELSE c.r.v, l |-> lst]
 
 Reject(step, clause) ==
     /\ PrintT(<<"VERDICT", tid, "REJECT", step, clause>>)
